@@ -340,6 +340,9 @@ func (e *Exec) initCoq() string {
 			bals = append(bals, fmt.Sprintf("(%s, %s, %s)", e.acctZ(i), cStr(d), cZ(funds.AmountOf(d).BigInt())))
 		}
 	}
+	if g.Erc20 {
+		bals = append(bals, fmt.Sprintf("(%s, %s, %s)", cZ(erc20MinterZ), cStr(pairDenom), "1000000000000000000000000000000000000000000000000000000000000"))
+	}
 	var chains []string
 	for _, c := range g.Chains {
 		chains = append(chains, cStr(c))
